@@ -23,6 +23,9 @@ TABLES = [
     {'?': 4}, {'?': 0, 'C': 4, 'H': 1}, {'?': 8, 'C': 3, 'N': 5, 'O': 0, 'I-1': 0, 'C+1': 5, 'N+1': 1, 'Fe+2': 2},
     {'?': 2, 'C': 12, 'S': 9, 'P': 1, 'B-1': 5, 'O-1': 3, 'H': 2, 'Mg': 0},
     {'?': 6, 'C': 4, 'N': 3, 'O': 2, 'C-1': 4, 'N-1': 0, 'S+1': 7, 'Cl': 3, 'F': 0},
+    # supersets of tables 3 and 4: every old entry kept, keys ADDED for atom types served by '?' before
+    {'?': 4, 'Si': 2, 'Mg': 1, 'Fe': 6, 'C': 3, 'N': 5, 'S': 2, 'I': 3, 'H': 2, 'B': 1},
+    {'?': 0, 'C': 4, 'H': 1, 'N': 3, 'O': 2, 'Si': 4, 'F': 1, 'P': 5, 'Fe': 3},
 ]
 
 
@@ -153,12 +156,12 @@ def floor(ctx):
     for ch in chunks(mols, 32):
         order = list(range(len(TABLES)))
         rnd.shuffle(order)
-        jobs.append((ch, order + order[:3]))
+        jobs.append((ch, order + order[:3] + [3, 8, 4, 9, 3]))     # ... ending with sub-table -> super-table steps
     res = pmap(_work, jobs)
     return {'evaluations': sum(r[0] for r in res), 'distinct_nontrivial': sum(r[1] for r in res),
             'rule': 'non-aromatic special cases, a generated family (13 elements x 0..9 substituents x {plain, bracket, '
                     'H1-3, +, -, +2} plus multiple-bond and isotope forms) and kekule corpus molecules, each under all '
-                    '8 tables in a shuffled order with 3 tables revisited (table changes between calls); non-trivial = '
+                    '10 tables in a shuffled order with 3 tables revisited and two table -> super-table steps (table changes between calls); non-trivial = '
                     'distinct molecules', 'exhaustive': False,
             'samples': ['[CH3](C)(C)C', 'C[I-]', '[Fe+2](C)(C)C'], 'violations': [b for r in res for b in r[2]],
             'bounded_note': 'bounded; not counted as proved'}
